@@ -10,6 +10,7 @@
 
 #include <yorel/yomm2/core.hpp>
 #include <yorel/yomm2/symbols.hpp>
+#include <yorel/yomm2/policies/throw_error.hpp>
 
 #include <cstddef>
 #include <memory>
@@ -105,6 +106,11 @@ struct vmap_policy
 struct ind_policy : yp::release::rebind<ind_policy>,
                     yp::basic_indirect_vptr<ind_policy> {};
 
+// thr  : release shape with the throw_error facet: an unresolvable call throws resolution_error to its caller
+//        (C16: such a call is a call like any other; concurrent failing calls must not disturb each other)
+struct thr_policy : yp::release::rebind<thr_policy>::replace<
+                        yp::error_handler, yp::throw_error> {};
+
 // the unrelated policy the extra thread keeps updating; registers the SAME
 // std_rtti classes as rel/dbg/vmap/ind
 struct foreign_policy : yp::release::rebind<foreign_policy> {};
@@ -188,6 +194,11 @@ C16_DECLARE_ROUTES(dbg, c16::dbg_policy)
 C16_DECLARE_ROUTES(nohash, c16::nohash_policy)
 C16_DECLARE_ROUTES(vmap, c16::vmap_policy)
 C16_DECLARE_ROUTES(ind, c16::ind_policy)
+
+// unresolvable calls under thr_policy: gap(Animal) has a definition for Dog only; amb(Animal, Animal) has (Dog, Animal)
+// and (Animal, Dog). The calls return normally when a definition applies and throw resolution_error otherwise.
+extern "C" int c16_errcall_uni__thr(c16::Animal* a);
+extern "C" int c16_errcall_multi__thr(c16::Animal* a, c16::Animal* b);
 
 // one uni-method and one 2-method call through the foreign policy
 extern "C" int c16_foreign_call(c16::Animal* a, c16::Animal* b);
